@@ -350,7 +350,11 @@ class is_flag_active_visitor<Flag, flag_and>""")]),
             if (*result != process_result::HANDLED_DEFERRED)
             {
                 processed_events++;
-                if (processed_events == max_events)
+                // Stop at the limit, but not while a completion transition
+                // of the step just taken is pending: it fires before any
+                // other event is dispatched (UML Standard 2.3 15.3.14).
+                if (processed_events >= max_events &&
+                    !completion_pending(event_pool))
                 {
                     break;
                 }
@@ -359,7 +363,11 @@ class is_flag_active_visitor<Flag, flag_and>""")]),
             if (*result != process_result::HANDLED_DEFERRED)
             {
                 processed_events++;
-                if (processed_events == max_events)
+                // Stop at the limit, but not while a completion transition
+                // of the step just taken is pending: it fires before any
+                // other event is dispatched (UML Standard 2.3 15.3.14).
+                if (processed_events >= max_events &&
+                    !completion_pending(event_pool))
                 {
                     break;
                 }
